@@ -186,6 +186,9 @@ func (g *gen) plain() {
 			if g.only != nil && !g.only(d) {
 				continue
 			}
+			if d.BadHash != "" && d.BadHash != "empty" {
+				continue // differs from the other kinds only in how DoH passwords are judged
+			}
 			enames, eopts := ednsVariants(d)
 			for ei := range enames {
 				if s.Proto == agd.ProtoDNSCrypt && ei > 1 {
@@ -253,6 +256,9 @@ func (g *gen) tls() {
 		for di, d := range w.Devs {
 			if g.only != nil && !g.only(d) {
 				continue
+			}
+			if d.BadHash != "" && d.BadHash != "empty" {
+				continue // differs from the other kinds only in how DoH passwords are judged
 			}
 			rnd := g.r.Rand(fmt.Sprintf("sni-%s-%s%s-%d", w.DBKind, s.Group, s.Name, g.round), di)
 			names, snis := sniVariants(rnd, d)
@@ -393,12 +399,20 @@ func (g *gen) human() {
 	for _, c := range chans {
 		s := w.server(c.group, c.server)
 		for _, p := range profs {
-			for rep := 0; rep < 3; rep++ {
+			for rep := 0; rep < 6; rep++ {
 				// rep 0 and 1 use the same new human id (created, then found or
-				// created again); rep 2 a case variant of it.
+				// created again); rep 2 a case variant of it; rep 3..5 ids that
+				// need normalisation (characters not allowed in a label).
 				human := fmt.Sprintf("nd-%s-%s-%s", c.server, c.channel, strings.ToLower(p))
-				if rep == 2 {
+				switch rep {
+				case 2:
 					human = strings.ToUpper(human)
+				case 3:
+					human = fmt.Sprintf("nc%s_%s!%s", c.server, c.channel, strings.ToLower(p))
+				case 4:
+					human = fmt.Sprintf("_Nx%s \u00e9~%s__%s.", c.server, c.channel, strings.ToLower(p))
+				case 5:
+					human = fmt.Sprintf("nc%s_%s!%s", c.server, c.channel, strings.ToLower(p)) // the same as rep 3 again
 				}
 				ext := "lnx-" + p + "-" + human
 				rq := g.base(s, nil, fmt.Sprintf("human/%s/%s/prof=%s/rep=%d", c.server, c.channel, p, rep))
